@@ -210,6 +210,65 @@ impl Builder {
         F: FnOnce() -> T + Send + 'static,
         T: Send + 'static,
     {
+        // SAFETY: 'static closure and result, exactly std's contract
+        unsafe { self.spawn_unchecked_(f) }
+    }
+
+    /// `std::thread::Builder::spawn_scoped`: the scope waits for the thread before it returns.
+    pub fn spawn_scoped<'scope, 'env, F, T>(self, scope: &'scope Scope<'scope, 'env>, f: F) -> io::Result<ScopedJoinHandle<'scope, T>>
+    where
+        F: FnOnce() -> T + Send + 'scope,
+        T: Send + 'scope,
+    {
+        let panics = scope.real_panics.clone();
+        let running = scope.real_running.clone();
+        {
+            *running.0.lock().unwrap_or_else(|e| e.into_inner()) += 1;
+        }
+        let in_sim = lock().mode == Mode::Threads && sim_tid().is_some();
+        let running2 = running.clone();
+        let wrapped = move || {
+            struct Done(Arc<(Mutex<usize>, std::sync::Condvar)>);
+            impl Drop for Done {
+                fn drop(&mut self) {
+                    *self.0 .0.lock().unwrap_or_else(|e| e.into_inner()) -= 1;
+                    self.0 .1.notify_all();
+                }
+            }
+            let _done = Done(running2);
+            if in_sim {
+                f()
+            } else {
+                match catch_unwind(AssertUnwindSafe(f)) {
+                    Ok(v) => v,
+                    Err(p) => {
+                        panics.fetch_add(1, std::sync::atomic::Ordering::SeqCst);
+                        std::panic::resume_unwind(p)
+                    }
+                }
+            }
+        };
+        // SAFETY: `scope()` does not return before every thread spawned through it has finished
+        // (simulated threads: blocked join on each; real threads: the running counter), so the
+        // borrows of 'scope / 'env outlive the thread.
+        let h = match unsafe { self.spawn_unchecked_(wrapped) } {
+            Ok(h) => h,
+            Err(e) => {
+                *running.0.lock().unwrap_or_else(|e| e.into_inner()) -= 1;
+                return Err(e);
+            }
+        };
+        if let Inner::Sim { tid, .. } = &h.inner {
+            scope.tids.lock().unwrap_or_else(|e| e.into_inner()).push(*tid);
+        }
+        Ok(ScopedJoinHandle { inner: h, real_panics: scope.real_panics.clone(), _p: std::marker::PhantomData })
+    }
+
+    unsafe fn spawn_unchecked_<'a, F, T>(self, f: F) -> io::Result<JoinHandle<T>>
+    where
+        F: FnOnce() -> T + Send + 'a,
+        T: Send + 'a,
+    {
         let mode = lock().mode;
         if mode != Mode::Threads {
             // outside a thread simulation behave like std (used by the fidelity cross-check)
@@ -220,7 +279,7 @@ impl Builder {
             if let Some(s) = self.stack_size {
                 b = b.stack_size(s);
             }
-            return b.spawn(f).map(|h| JoinHandle { inner: Inner::Real(h) });
+            return b.spawn_unchecked(f).map(|h| JoinHandle { inner: Inner::Real(h) });
         }
         let me = match sim_tid() {
             Some(t) => t,
@@ -231,7 +290,7 @@ impl Builder {
                 if let Some(n) = self.name {
                     b = b.name(n);
                 }
-                return b.spawn(f).map(|h| JoinHandle { inner: Inner::Real(h) });
+                return b.spawn_unchecked(f).map(|h| JoinHandle { inner: Inner::Real(h) });
             }
         };
         let slot: Arc<Mutex<Option<std::thread::Result<T>>>> = Arc::new(Mutex::new(None));
@@ -254,7 +313,7 @@ impl Builder {
         if let Some(n) = &self.name {
             b = b.name(n.clone());
         }
-        let os = b.spawn(move || {
+        let os = b.spawn_unchecked(move || {
             SIM_TID.with(|c| c.set(Some(child)));
             {
                 let mut g = lock();
@@ -324,6 +383,105 @@ impl<T> JoinHandle<T> {
                 g.sched.as_ref().map(|s| s.threads[*tid as usize].status == ThStatus::Finished).unwrap_or(true)
             }
         }
+    }
+}
+
+// ------------------------------------------------------------------------------------------
+// scoped threads (`std::thread::scope`, `Scope::spawn`, `Builder::spawn_scoped`)
+// ------------------------------------------------------------------------------------------
+
+pub struct Scope<'scope, 'env: 'scope> {
+    tids: Mutex<Vec<u32>>,
+    real_running: Arc<(Mutex<usize>, std::sync::Condvar)>,
+    real_panics: Arc<std::sync::atomic::AtomicUsize>,
+    scope: std::marker::PhantomData<&'scope mut &'scope ()>,
+    env: std::marker::PhantomData<&'env mut &'env ()>,
+}
+
+pub struct ScopedJoinHandle<'scope, T> {
+    inner: JoinHandle<T>,
+    real_panics: Arc<std::sync::atomic::AtomicUsize>,
+    _p: std::marker::PhantomData<&'scope ()>,
+}
+
+impl<'scope, T> ScopedJoinHandle<'scope, T> {
+    pub fn join(self) -> std::thread::Result<T> {
+        let real = matches!(self.inner.inner, Inner::Real(_));
+        let r = self.inner.join();
+        if real && r.is_err() {
+            // the panic was handed to the caller: the scope does not report it again
+            self.real_panics.fetch_sub(1, std::sync::atomic::Ordering::SeqCst);
+        }
+        r
+    }
+    pub fn is_finished(&self) -> bool {
+        self.inner.is_finished()
+    }
+}
+
+impl<'scope, 'env> Scope<'scope, 'env> {
+    pub fn spawn<F, T>(&'scope self, f: F) -> ScopedJoinHandle<'scope, T>
+    where
+        F: FnOnce() -> T + Send + 'scope,
+        T: Send + 'scope,
+    {
+        Builder::new().spawn_scoped(self, f).expect("failed to spawn thread")
+    }
+}
+
+/// `std::thread::scope`: returns only after every thread spawned in the scope has finished; panics
+/// if one of them panicked and nobody took its result through `join`.
+pub fn scope<'env, F, T>(f: F) -> T
+where
+    F: for<'scope> FnOnce(&'scope Scope<'scope, 'env>) -> T,
+{
+    let sc = Scope {
+        tids: Mutex::new(Vec::new()),
+        real_running: Arc::new((Mutex::new(0), std::sync::Condvar::new())),
+        real_panics: Arc::new(std::sync::atomic::AtomicUsize::new(0)),
+        scope: std::marker::PhantomData,
+        env: std::marker::PhantomData,
+    };
+    let r = catch_unwind(AssertUnwindSafe(|| f(&sc)));
+    // simulated threads: a blocked join on each one that nobody joined
+    let tids: Vec<u32> = sc.tids.lock().unwrap_or_else(|e| e.into_inner()).clone();
+    let mut unjoined_panic = false;
+    if let Some(me) = sim_tid() {
+        for tid in tids {
+            let mut g = lock();
+            if g.sched.is_none() {
+                break;
+            }
+            let fin = g.sched.as_ref().unwrap().threads[tid as usize].status == ThStatus::Finished;
+            if !fin {
+                g = sched_yield(g, me, ThStatus::BlockedJoin(tid));
+            }
+            let t = &mut g.sched.as_mut().unwrap().threads[tid as usize];
+            if !t.joined {
+                t.joined = true;
+                if t.panicked {
+                    unjoined_panic = true;
+                }
+                g.push(me, Ph::Joined, 0, tid, 0);
+            }
+        }
+    }
+    // real threads (outside a simulation, or spawned from an unregistered thread)
+    {
+        let (m, cv) = &*sc.real_running;
+        let mut n = m.lock().unwrap_or_else(|e| e.into_inner());
+        // simulated threads decrement the counter as well; they have all finished by now
+        while *n > 0 {
+            n = cv.wait(n).unwrap_or_else(|e| e.into_inner());
+        }
+    }
+    if sc.real_panics.load(std::sync::atomic::Ordering::SeqCst) > 0 {
+        unjoined_panic = true;
+    }
+    match r {
+        Err(p) => std::panic::resume_unwind(p),
+        Ok(_) if unjoined_panic => panic!("a scoped thread panicked"),
+        Ok(v) => v,
     }
 }
 
